@@ -46,6 +46,10 @@ CONTEXTS = [
     ('item', '\\begin{itemize}\\item q ', ' r\\item z\\end{itemize}', True),
     ('item-head', '\\begin{itemize}\\item', '\\item z\\end{itemize}', True),
     ('definition', '\\newcommand{\\d}{q ', ' r}s', False),
+    # a plain group inside a definition resets the definition mode: named environments work there
+    ('definition-group', '\\newcommand{\\d}[1]{{\\small q ', ' r}}s', True),
+    # a verbatim body with an odd number of dollars earlier in the document
+    ('after-verbatim', '\\begin{verbatim} $ \\end{verbatim} T ', ' Z', True),
 ]
 
 
